@@ -291,3 +291,168 @@ def ebnf(rng, profile='shaping', n_rules=None, p_rec=0.15, allow_templates=True,
         ignore = ['WS']
     alphabet = sorted(set(''.join(e for t in tpool for e in t[2]) + ''.join(lits) + ('(),z' if templates else '') + (' ' if ignore else '')))
     return {'rules': rules, 'terms': terms, 'ignore': ignore, 'start': ['start'], 'alphabet': alphabet}
+
+
+# ------------------------------------------------------------------ lalr-friendly profile
+
+def lalr_friendly(rng, p_perturb=0.35, prios=False, n_blocks=None):
+    """grammars assembled from blocks that are LR(1) by construction (operator layers, separated
+    lists, bracket nesting, keyword statements, optional tails, nullable prefixes/suffixes, the
+    textbook LALR-not-SLR and LR(1)-not-LALR shapes, dangling else), then randomly perturbed so that
+    a share of them has shift/reduce or reduce/reduce conflicts.  Terminals are single characters
+    with distinct spellings, so tokenisation is never in question."""
+    rules = []
+    used = set()
+    cnt = itertools.count()
+    L = LIT
+
+    def fresh(base):
+        return '%s%d' % (base, next(cnt))
+
+    def leaf():
+        used.add(rng.choice(['N', 'X']))
+        return ['t', sorted(used & {'N', 'X'})[-1] if rng.random() < 0.5 else rng.choice(sorted(used & {'N', 'X'}))]
+
+    def block(depth=0):
+        k = rng.randrange(12)
+        if depth > 1 and k in (0, 1, 2):
+            k = 3
+        if k == 0:       # operator layers
+            e, t, f = fresh('e'), fresh('t'), fresh('f')
+            m = rng.choice(['', '?'])
+            rules.append(rule(e, [alt([['r', e], L('+'), ['r', t]], rng.choice([None, 'add'])), alt([['r', t]])], mods=m))
+            rules.append(rule(t, [alt([['r', t], L('*'), ['r', f]]), alt([['r', f]])], mods=m))
+            rules.append(rule(f, [alt([leaf()]), alt([L('('), ['r', e], L(')')]), alt([L('-'), ['r', f]], 'neg')], mods=m))
+            return e
+        if k == 1:       # separated list in brackets (EBNF)
+            l = fresh('l')
+            item = block(depth + 1) if rng.random() < 0.4 else None
+            it = ['r', item] if item else leaf()
+            rules.append(rule(l, [alt([L('['), ['m', [alt([it, ['q', ['g', [alt([L(','), it])]], '*', 0, 0]])]], L(']')])]))
+            return l
+        if k == 2:       # statements and blocks
+            s, b = fresh('s'), fresh('b')
+            inner = block(depth + 1) if rng.random() < 0.4 else None
+            ex = ['r', inner] if inner else leaf()
+            rules.append(rule(s, [alt([L('k'), leaf(), L(';')], 'kw'), alt([leaf(), L('='), ex, L(';')], 'asg'), alt([['r', b]])]))
+            rules.append(rule(b, [alt([L('{'), ['q', ['r', s], rng.choice('*+'), 0, 0], L('}')])]))
+            return s
+        if k == 3:       # optional tails
+            d = fresh('d')
+            used.update('ABC')
+            rules.append(rule(d, [alt([['t', 'A'], ['m', [alt([['t', 'B']])]], ['m', [alt([['t', 'C']])]]])]))
+            return d
+        if k == 4:       # nullable suffixes / prefixes
+            a, b, c, d = fresh('a'), fresh('b'), fresh('c'), fresh('d')
+            used.update('ABC')
+            order = rng.choice([[b, c, d], [c, b, d], [c, d, b], [c, b, c]])
+            rules.append(rule(a, [alt([['r', x] for x in order])]))
+            rules.append(rule(b, [alt([['t', 'A']]), alt([['t', 'A'], ['r', b]])]))
+            rules.append(rule(c, [alt([]), alt([['t', 'B']])]))
+            rules.append(rule(d, [alt([]), alt([['t', 'C'], ['r', d]])]))
+            return a
+        if k == 5:       # dangling else: shift/reduce
+            s = fresh('i')
+            rules.append(rule(s, [alt([L('i'), ['r', s]], 'if1'), alt([L('i'), ['r', s], L('e'), ['r', s]], 'if2'), alt([leaf()])]))
+            return s
+        if k == 6:       # LALR, not SLR
+            s, l, r = fresh('s'), fresh('l'), fresh('r')
+            rules.append(rule(s, [alt([['r', l], L('='), ['r', r]]), alt([['r', r]])]))
+            rules.append(rule(l, [alt([L('*'), ['r', r]]), alt([leaf()])]))
+            rules.append(rule(r, [alt([['r', l]])]))
+            return s
+        if k == 7:       # LR(1), not LALR: reduce/reduce after merging
+            s, a, b = fresh('s'), fresh('a'), fresh('b')
+            used.update('ABC')
+            pa, pb = (rng.choice([(None, None), (None, None), (2, 1), (1, 1), (-1, None)]) if prios else (None, None))
+            rules.append(rule(s, [alt([['t', 'A'], ['r', a], L('d')]), alt([['t', 'B'], ['r', b], L('d')]),
+                                  alt([['t', 'A'], ['r', b], L('e')]), alt([['t', 'B'], ['r', a], L('e')])]))
+            rules.append(rule(a, [alt([['t', 'C']])], prio=pa))
+            rules.append(rule(b, [alt([['t', 'C']])], prio=pb))
+            return s
+        if k == 8:       # plain reduce/reduce (two rules, same body), optionally prioritised
+            s, a, b = fresh('s'), fresh('a'), fresh('b')
+            pa, pb = (rng.choice([(None, None), (2, 1), (1, 2), (1, 1), (0, -1), (3, None)]) if prios else (None, None))
+            x = leaf()
+            tail = rng.choice([[], [L(';')]])
+            rules.append(rule(s, [alt([['r', a]] + tail), alt([['r', b]] + tail + rng.choice([[], [L('!')]]))]))
+            rules.append(rule(a, [alt([x])], prio=pa))
+            rules.append(rule(b, [alt([x])], prio=pb))
+            return s
+        if k == 9:       # right-recursive list with trailing optional separator
+            l = fresh('l')
+            rules.append(rule(l, [alt([leaf()]), alt([leaf(), L(','), ['r', l]]), alt([leaf(), L(',')])]))
+            return l
+        if k == 10:      # palindromic nesting with empty centre
+            p = fresh('p')
+            rules.append(rule(p, [alt([L('('), ['r', p], L(')')]), alt([L('['), ['r', p], L(']')]), alt([])]))
+            return p
+        # k == 11: inlined list rule, left recursive (LALR in-place child reuse)
+        l, i = fresh('l'), '_' + fresh('i')
+        rules.append(rule(l, [alt([['r', i]])]))
+        rules.append(rule(i, [alt([['r', i], leaf()]), alt([leaf()])]))
+        return l
+
+    nb = n_blocks or rng.randint(1, 3)
+    tops = [block() for _ in range(nb)]
+    shape = rng.randrange(4)
+    if len(tops) == 1 or shape == 0:
+        start_alts = [alt([['r', t]]) for t in tops]
+    elif shape == 1:
+        start_alts = [alt([['r', t] for t in tops])]
+    elif shape == 2:
+        start_alts = [alt([['q', ['g', [alt([['r', t]]) for t in tops]], '+', 0, 0]])]
+    else:
+        start_alts = [alt([['r', tops[0]], L('#'), ['r', tops[-1]]]), alt([['r', tops[len(tops) // 2]]])]
+    rules.insert(0, rule('start', start_alts))
+    starts = ['start']
+    if rng.random() < 0.15 and len(tops) > 1:
+        starts.append(tops[-1])
+    # perturbation
+    if rng.random() < p_perturb:
+        for _ in range(rng.randint(1, 2)):
+            r = rng.choice(rules)
+            a = rng.choice(r['alts'])
+            k = rng.randrange(4)
+            names = [x['name'] for x in rules]
+            if k == 0 and a['items']:
+                a['items'].pop(rng.randrange(len(a['items'])))
+            elif k == 1:
+                a['items'].insert(rng.randint(0, len(a['items'])), rng.choice([['r', rng.choice(names)], leaf(), L(rng.choice('+;,'))]))
+            elif k == 2:
+                other = rng.choice(rules)
+                new = alt(list(rng.choice(other['alts'])['items']))
+                if not any(x['items'] == new['items'] for x in r['alts']):
+                    r['alts'].append(new)
+            elif a['items']:
+                a['items'][rng.randrange(len(a['items']))] = rng.choice([['r', rng.choice(names)], leaf()])
+        # remove duplicate alternatives the perturbation may have produced
+        for r in rules:
+            seen, out = [], []
+            for a in r['alts']:
+                if a['items'] not in seen:
+                    seen.append(a['items'])
+                    out.append(a)
+            r['alts'] = out
+    if prios:
+        for r in rules:
+            if r['prio'] is None and rng.random() < 0.2:
+                r['prio'] = rng.choice([-1, 1, 2])
+    tdefs = {'N': ['x', '[0-9]', ''], 'X': ['s', 'x', ''], 'A': ['s', 'a', ''], 'B': ['s', 'b', ''], 'C': ['s', 'c', '']}
+    exs = {'N': ['7', '3'], 'X': ['x'], 'A': ['a'], 'B': ['b'], 'C': ['c']}
+    for r in rules:
+        for a in r['alts']:
+            _collect_terms(a['items'], used)
+    terms = [term(n, tdefs[n], ex=exs[n]) for n in sorted(used)]
+    return {'rules': rules, 'terms': terms, 'ignore': [], 'start': starts, 'alphabet': list('7xabc+*()-[],k;={}ie#!d')}
+
+
+def _collect_terms(items, used):
+    for it in items:
+        if it[0] == 't':
+            used.add(it[1])
+        elif it[0] in ('g', 'm'):
+            for a in it[1]:
+                _collect_terms(a['items'], used)
+        elif it[0] == 'q':
+            _collect_terms([it[1]], used)
